@@ -498,12 +498,7 @@ func c15MapRanges(c *core.Ctx, e *entrySets) {
 					}
 				}
 				if bad == "" && sortedNeeded {
-					sorted := false
-					for _, ci := range core.Calls(f) {
-						if o := core.CalleeObj(ci); o != nil && o.Pkg() != nil && o.Pkg().Path() == "sort" && (o.Name() == "Slice" || o.Name() == "SliceStable" || o.Name() == "Sort" || o.Name() == "Stable" || o.Name() == "Strings") {
-							sorted = true
-						}
-					}
+					sorted := callsSort(f, 0)
 					if !sorted {
 						bad, pos = "an append whose list is never sorted", core.InstrPos(rg)
 					}
@@ -540,6 +535,22 @@ func c15CallCommutes(ci ssa.CallInstruction) bool {
 		return true
 	case (p == "strings" || p == "strconv") && !strings.Contains(n, "."):
 		return true // package-level pure functions; methods (e.g. Builder.WriteString) are effects
+	}
+	return false
+}
+
+// callsSort: f or a static repository callee (depth <= 2) calls a sorting function of package sort.
+func callsSort(f *ssa.Function, depth int) bool {
+	if depth > 2 || f.Blocks == nil {
+		return false
+	}
+	for _, ci := range core.Calls(f) {
+		if o := core.CalleeObj(ci); o != nil && o.Pkg() != nil && o.Pkg().Path() == "sort" && (o.Name() == "Slice" || o.Name() == "SliceStable" || o.Name() == "Sort" || o.Name() == "Stable" || o.Name() == "Strings") {
+			return true
+		}
+		if cf := ci.Common().StaticCallee(); cf != nil && cf != f && core.InRepo(core.FuncPkg(cf)) && !reachesStatic(cf, f, 0, map[*ssa.Function]bool{}) && callsSort(cf, depth+1) {
+			return true
+		}
 	}
 	return false
 }
